@@ -160,10 +160,8 @@ func semErrKind(v pred.Val) string {
 			}
 		}
 	case pred.Term:
-		if strings.HasPrefix(x.Fn, "fmt.Errorf") && len(x.Args) > 1 {
-			if sv, ok := x.Args[1].(*pred.SliceV); ok && len(sv.Elems) > 0 {
-				return "wrap(" + semErrKind(sv.Elems[0].V) + ")"
-			}
+		if w := errorfWrapped(x); w != nil { // what errors.Is sees: the operand of %w, not whatever is printed first
+			return "wrap(" + semErrKind(w) + ")"
 		}
 	}
 	return v.String()
